@@ -135,36 +135,53 @@ func runFormatConsts(c *Ctx) {
 			c.OK(pos, fv.name, fmt.Sprintf("initialised to %q, never reassigned", got), false)
 		}
 	}
-	// e. crcTable: located by role — the package variable of type *crc64.Table
-	var crc *ssa.Global
+	// e. the CRC table: located by role — the table argument of every crc64.Checksum /
+	// crc64.Update / crc64.New call of the package must be built from crc64.ECMA
 	nCRC := 0
-	if sp := c.P.SPkgs[ir.MastPath]; sp != nil {
-		for _, m := range sp.Members {
-			if g, ok := m.(*ssa.Global); ok && fxTypeString(g.Type()) == "**hash/crc64.Table" {
-				crc = g
+	for _, fn := range c.P.Funcs {
+		if !fxOwnFunc(fn) {
+			continue
+		}
+		for _, b := range fn.Blocks {
+			for _, ins := range b.Instrs {
+				call, ok := ins.(*ssa.Call)
+				if !ok {
+					continue
+				}
+				callee := ir.Callee(call.Call)
+				ti := -1
+				switch fxFullName(callee) {
+				case "hash/crc64.Checksum":
+					ti = 1
+				case "hash/crc64.Update":
+					ti = 1
+				case "hash/crc64.New":
+					ti = 0
+				}
+				if ti < 0 || ti >= len(call.Call.Args) {
+					continue
+				}
 				nCRC++
+				u, at, why := fxCRCPoly(c.P, call.Call.Args[ti], 0)
+				pos := c.P.InstrPos(call)
+				if at != nil {
+					pos = c.P.InstrPos(at)
+				}
+				switch {
+				case strings.HasPrefix(why, "the table is not built by"):
+					c.Violation(nil, pos, "crcTable", "the CRC table is not built by hash/crc64.MakeTable: layers of string, []byte and marshalled keys change")
+				case why != "":
+					c.Undecided(nil, pos, "crcTable", why)
+				case u != frozenECMA:
+					c.Violation(nil, pos, "crcTable", fmt.Sprintf("crc64.MakeTable polynomial is %#x, the published format uses crc64.ECMA (%#x): every string/[]byte/marshalled key moves to a different layer", u, frozenECMA))
+				default:
+					c.OK(pos, "crcTable", "crc64.MakeTable(crc64.ECMA), never reassigned", false)
+				}
 			}
 		}
 	}
-	if nCRC != 1 {
-		c.AnchorMissing("the package variable of type *crc64.Table (found " + fmt.Sprint(nCRC) + ")")
-	} else {
-		pos := c.P.Pos(crc.Pos())
-		iv, st, ok := fxGlobalInit(c.P, crc)
-		if !ok {
-			c.Undecided(nil, pos, "crcTable", "the CRC table variable is not initialised exactly once (reassigned somewhere in the repository)")
-		} else {
-			call, callee := fxCallee(iv)
-			if callee == nil || fxFullName(callee) != "hash/crc64.MakeTable" || len(call.Call.Args) != 1 {
-				c.Violation(nil, c.P.InstrPos(st), "crcTable", "the CRC table is not built by hash/crc64.MakeTable: layers of string, []byte and marshalled keys change")
-			} else if k := fxConst(call.Call.Args[0]); k == nil {
-				c.Undecided(nil, c.P.InstrPos(st), "crcTable", "polynomial passed to crc64.MakeTable is not a constant")
-			} else if u, exact := constant.Uint64Val(k); !exact || u != frozenECMA {
-				c.Violation(nil, c.P.InstrPos(st), "crcTable", fmt.Sprintf("crc64.MakeTable polynomial is %#x, the published format uses crc64.ECMA (%#x): every string/[]byte/marshalled key moves to a different layer", u, frozenECMA))
-			} else {
-				c.OK(pos, "crcTable", "crc64.MakeTable(crc64.ECMA), never reassigned", false)
-			}
-		}
+	if nCRC == 0 {
+		c.AnchorMissing("a crc64.Checksum/Update/New call in the package (the CRC table's use)")
 	}
 	// f. default codec
 	type codec struct{ global, want, field, cfg string }
@@ -1630,9 +1647,10 @@ func blobLayerCheck(c *Ctx, fn *ssa.Function, unsignedFn *ssa.Function, depth in
 		if fxStrip(sum.Call.Args[0]) != ssa.Value(fn.Params[0]) {
 			return "crc64.Checksum is not applied to the key bytes"
 		}
-		g := fxGlobalOf(sum.Call.Args[1])
-		if g == nil || fxTypeString(g.Type()) != "**hash/crc64.Table" || g.Pkg == nil || g.Pkg.Pkg.Path() != ir.MastPath {
-			return "crc64.Checksum does not use the package's CRC table variable"
+		if u, _, why := fxCRCPoly(c.P, sum.Call.Args[1], 0); why != "" {
+			return "crc64.Checksum does not use a CRC table of known polynomial: " + why
+		} else if u != frozenECMA {
+			return fmt.Sprintf("crc64.Checksum uses a table of polynomial %#x, the published format uses crc64.ECMA", u)
 		}
 		return ""
 	}
